@@ -48,7 +48,7 @@ CLAIMED = {
     },
     "C10": {
         "technique": "Coq proof (iteration shape and containment from the safety invariant; exact growth of the slices for uniform requests) + correspondence + exactness predicate on uniform histories",
-        "text": "C10_iter_shape / C10_live_contained / C10_slices_disjoint; byte-exact clause: C10_uniform_alloc_exact / C10_uniform_reset / C10_exact_predicate (one alignment between MIN_ALIGN and 16, sizes multiples of it: every allocation grows the slices by exactly its size on every path and for every allocator answer). " + ARENA_TEXT + "Every fifth history of the driver is uniform and is checked with sp_iter_exact (slice bytes = bytes allocated since the last reset). Partial: the exactness theorem is per step; its composition over whole uniform histories with failed initialisers is decided on the implementation.",
+        "text": "C10_iter_shape / C10_live_contained / C10_slices_disjoint; byte-exact clause: C10_uniform_alloc_exact / C10_uniform_reset / C10_uniform_history_exact / C10_exact_predicate (one alignment between MIN_ALIGN and 16, sizes multiples of it: every allocation grows the slices by exactly its size on every path and for every allocator answer). " + ARENA_TEXT + "Every fifth history of the driver is uniform and is checked with sp_iter_exact (slice bytes = bytes allocated since the last reset). C10_uniform_history_exact lifts this to every history of uniform allocations and resets from a fresh arena. Partial: failed initialisers inside uniform histories are decided by the driver and C11's rewind theorem.",
         "design_ref": "DESIGN.md §6 C10",
     },
     "C11": {
